@@ -7,6 +7,7 @@ require (
 	github.com/dgryski/go-farm v0.0.0-20240924180020-3414d57e47da
 	github.com/temporalio/s2s-proxy v0.0.0-00010101000000-000000000000
 	go.etcd.io/gofail v0.2.0
+	go.temporal.io/api v1.62.8
 	go.temporal.io/server v1.31.2
 	google.golang.org/grpc v1.80.0
 	google.golang.org/protobuf v1.36.11
@@ -69,7 +70,6 @@ require (
 	go.opentelemetry.io/otel/sdk v1.43.0 // indirect
 	go.opentelemetry.io/otel/sdk/metric v1.43.0 // indirect
 	go.opentelemetry.io/otel/trace v1.43.0 // indirect
-	go.temporal.io/api v1.62.8 // indirect
 	go.temporal.io/sdk v1.41.1 // indirect
 	go.uber.org/atomic v1.11.0 // indirect
 	go.uber.org/dig v1.19.0 // indirect
